@@ -15,6 +15,7 @@ mod c07;
 mod refbmca;
 mod c05;
 mod c06;
+mod c11;
 
 use engine::Ctx;
 
@@ -79,6 +80,8 @@ fn main() {
         ("C05", Some(p)) => c05::replay(&ctx, p),
         ("C06", None) => c06::run(&ctx),
         ("C06", Some(p)) => c06::replay(&ctx, p),
+        ("C11", None) => c11::run(&ctx),
+        ("C11", Some(p)) => c11::replay(&ctx, p),
         ("C16", None) => c16::run(&ctx),
         ("C16", Some(p)) => c16::replay(&ctx, p),
         _ => {
